@@ -11,6 +11,9 @@
    landing target to entries; "" is the target itself.  [copy_sel ... = (fs', log, None)]: the copy
    succeeded, left the destination [fs'] and materialised the source entries [log] (in this
    order; l_sel = the entry passed include/exclude itself, false = created on demand as a parent).
+   The third argument of copy_sel is AlwaysReplaceExistingDestPaths: the statements about what a
+   copy selects and writes are for [false]; the model with [true] (removeTargetIfNeeded after
+   createParentDirs) is tied to the code by the correspondence only.
 
    keep_incr = included and not excluded, evaluated with MatchesUsingParentResults handed down
    from the top-level source (what copier.copy does); keep_naive = MatchesOrParentMatches on the
@@ -31,7 +34,7 @@ Import ListNotations.
 Theorem copy_selects_incr_reference :
   forall pmatch c rootst view fs0 fs' log,
     wf_tree view = true ->
-    copy_sel pmatch c (SrcDir rootst view) fs0 = (fs', log, None) ->
+    copy_sel pmatch c false (SrcDir rootst view) fs0 = (fs', log, None) ->
     log = flat_items (keep_incr pmatch c) view
     /\ map l_st log = flat_reference (keep_incr pmatch c) view
     /\ (forall q, q <> [] -> fs' q = spec_ent log fs0 q)
@@ -41,15 +44,16 @@ Proof. exact copy_selects_proof. Qed.
 (* ---- the hypothesis "the copy succeeded" is not vacuous: creating parents on demand suffices ----
    For every matcher, pattern lists and source tree: if every source path that exists in the
    destination has the same kind there (directory / non-directory) and the landing target is
-   missing or a directory — an empty destination in particular — the copy succeeds: no mkdir or
-   create ever misses its parent directory. *)
+   missing or a directory — an empty destination in particular — the copy succeeds, with and
+   without AlwaysReplaceExistingDestPaths [repl]: no mkdir or create ever misses its parent
+   directory. *)
 Theorem copy_succeeds_on_compatible_destination :
-  forall pmatch c rootst view fs0,
+  forall pmatch c repl rootst view fs0,
     wf_tree view = true ->
     (forall e o, In e (walk_root view) -> fs0 (st_path (fst e)) = Some o -> e_dir o = st_is_dir (fst e)) ->
     (forall o, fs0 [] = Some o -> e_dir o = true) ->
-    exists fs' log, copy_sel pmatch c (SrcDir rootst view) fs0 = (fs', log, None).
-Proof. exact (fun pmatch c rootst view fs0 Hwf => copy_succeeds_proof view Hwf pmatch c rootst fs0). Qed.
+    exists fs' log, copy_sel pmatch c repl (SrcDir rootst view) fs0 = (fs', log, None).
+Proof. exact (fun pmatch c repl rootst view fs0 Hwf => copy_succeeds_proof view Hwf pmatch c repl rootst fs0). Qed.
 
 (* ---- no extra directories ----
    An entry of the source (a directory in particular) that is not selected and has no selected
@@ -57,7 +61,7 @@ Proof. exact (fun pmatch c rootst view fs0 Hwf => copy_succeeds_proof view Hwf p
 Theorem no_extra_dirs :
   forall pmatch c rootst view fs0 fs' log,
     wf_tree view = true ->
-    copy_sel pmatch c (SrcDir rootst view) fs0 = (fs', log, None) ->
+    copy_sel pmatch c false (SrcDir rootst view) fs0 = (fs', log, None) ->
     forall e, In e (walk_root view) ->
       keep_incr pmatch c (st_path (fst e)) = false ->
       (forall e', In e' (walk_root view) ->
@@ -74,7 +78,7 @@ Proof. exact no_extra_dirs_proof. Qed.
 Theorem lazy_parent_metadata :
   forall pmatch c rootst view fs0 fs' log,
     wf_tree view = true ->
-    copy_sel pmatch c (SrcDir rootst view) fs0 = (fs', log, None) ->
+    copy_sel pmatch c false (SrcDir rootst view) fs0 = (fs', log, None) ->
     forall it, In it log -> l_sel it = false ->
       In (l_st it, l_ct it) (walk_root view) /\ st_is_dir (l_st it) = true /\
       match fs0 (l_path it) with
@@ -92,7 +96,7 @@ Proof. exact lazy_parent_metadata_proof. Qed.
 Theorem copy_eq_filter_walk_unpruned :
   forall pmatch c rootst view fs0 fs' log,
     wf_tree view = true ->
-    copy_sel pmatch c (SrcDir rootst view) fs0 = (fs', log, None) ->
+    copy_sel pmatch c false (SrcDir rootst view) fs0 = (fs', log, None) ->
     map l_st log = filter_walk pmatch id_map (no_prune c) view.
 Proof. exact copy_eq_filter_walk_unpruned_proof. Qed.
 
@@ -102,7 +106,7 @@ Proof. exact copy_eq_filter_walk_unpruned_proof. Qed.
 Theorem copy_eq_filter_walk :
   forall pmatch c rootst view fs0 fs' log,
     prefix_semantics pmatch -> cfg_star_safe c = true -> wf_tree view = true ->
-    copy_sel pmatch c (SrcDir rootst view) fs0 = (fs', log, None) ->
+    copy_sel pmatch c false (SrcDir rootst view) fs0 = (fs', log, None) ->
     map l_st log = filter_walk pmatch id_map c view.
 Proof. exact copy_eq_filter_walk_proof. Qed.
 
@@ -113,7 +117,7 @@ Proof. exact copy_eq_filter_walk_proof. Qed.
 Theorem copy_ne_filter_walk_refuted :
   exists pmatch c rootst view fs0 fs' log,
     prefix_semantics pmatch /\ wf_tree view = true /\ cfg_star_safe c = false /\
-    copy_sel pmatch c (SrcDir rootst view) fs0 = (fs', log, None) /\
+    copy_sel pmatch c false (SrcDir rootst view) fs0 = (fs', log, None) /\
     map l_st log <> filter_walk pmatch id_map c view.
 Proof. exact copy_ne_filter_walk_refuted_proof. Qed.
 
@@ -122,7 +126,7 @@ Proof. exact copy_ne_filter_walk_refuted_proof. Qed.
 Theorem copy_eq_naive :
   forall pmatch c rootst view fs0 fs' log,
     wf_tree view = true -> wf_strict view = true -> all_paths (nls_path pmatch c) view = true ->
-    copy_sel pmatch c (SrcDir rootst view) fs0 = (fs', log, None) ->
+    copy_sel pmatch c false (SrcDir rootst view) fs0 = (fs', log, None) ->
     log = flat_items (keep_naive pmatch c) view.
 Proof. exact copy_eq_naive_proof. Qed.
 
@@ -133,14 +137,14 @@ Theorem copy_ne_naive_refuted :
   exists pmatch c rootst view fs0 fs' log,
     prefix_semantics pmatch /\ wf_tree view = true /\ wf_strict view = true /\
     all_paths (nls_path pmatch c) view = false /\
-    copy_sel pmatch c (SrcDir rootst view) fs0 = (fs', log, None) /\
+    copy_sel pmatch c false (SrcDir rootst view) fs0 = (fs', log, None) /\
     log <> flat_items (keep_naive pmatch c) view.
 Proof. exact copy_ne_naive_refuted_proof. Qed.
 
 (* ---- a single non-directory as the source: the patterns are not consulted ---- *)
 Theorem single_file_source_ignores_patterns :
-  forall pmatch c pmatch' c' st ct fs,
-    copy_sel pmatch c (SrcFile st ct) fs = copy_sel pmatch' c' (SrcFile st ct) fs.
+  forall pmatch c pmatch' c' repl st ct fs,
+    copy_sel pmatch c repl (SrcFile st ct) fs = copy_sel pmatch' c' repl (SrcFile st ct) fs.
 Proof. exact single_file_proof. Qed.
 
 Print Assumptions copy_selects_incr_reference.
